@@ -201,8 +201,38 @@ class ClassModel:
 
     def direct_writes(self, fn):
         if fn.key not in self._dw:
-            self._dw[fn.key] = direct_writes(fn, self.member_input)
+            self._dw[fn.key] = direct_writes(fn, self.member_input, self.mutates)
         return self._dw[fn.key]
+
+    def mutates(self, callee_key, callee_qn):
+        """Does the (non-const) method identified by callee_key change its own object?  Decided from
+        the callee's body when it is in the fact base (it assigns / deletes / mutating-calls one of its
+        fields, directly or through calls on its `this`); unknown callees count as mutating."""
+        memo = self.__dict__.setdefault("_mut", {})
+        if callee_key in memo:
+            return memo[callee_key]
+        memo[callee_key] = True      # recursion / unknown: conservative
+        target = None
+        for fn in self.fx.fns(callee_qn):
+            if fn.key == callee_key:
+                target = fn
+                break
+        if target is None or target.body is None:
+            return True
+        res = False
+        if direct_writes(target, {}, self.mutates):
+            res = True
+        else:
+            for n in target.calls():
+                if n.get("k") == "CXXMemberCallExpr":
+                    obj = F.call_object(n)
+                    if obj is not None and obj.get("k") == "CXXThisExpr" and n.get("calleeKey") \
+                            and not n["calleeKey"].endswith(" const"):
+                        if self.mutates(n["calleeKey"], strip_targs(n.get("callee") or "")):
+                            res = True
+                            break
+        memo[callee_key] = res
+        return res
 
 
 def _lhs_root_field(n):
@@ -235,7 +265,7 @@ def _lhs_root_field(n):
 _ASSIGN_OPS = ("=", "+=", "-=", "*=", "/=", "%=", "|=", "&=", "^=", "<<=", ">>=")
 
 
-def direct_writes(fn, member_input=None):
+def direct_writes(fn, member_input=None, mutates=None):
     """Fields of `this` written directly in fn: assignment targets (also through subscripts /
     call operators), ++/--, delete, receivers of non-const member calls (for member sub-objects
     listed in member_input only the listed input-changing methods count)."""
@@ -271,8 +301,13 @@ def direct_writes(fn, member_input=None):
                         if mname in member_input[tf[1]]:
                             out.add(tf[1])
                     elif not key.endswith(" const") and not (n.get("c") or [{}])[0].get("arrow"):
-                        # a non-const call through a pointer member changes the pointee, not the member
-                        out.add(tf[1])
+                        # a non-const call through a pointer member changes the pointee, not the member;
+                        # a non-const accessor that changes nothing (Float& diagonal(i)) is a read
+                        t = (n.get("t") or "").strip()
+                        if mutates is None or mutates(key, strip_targs(n.get("callee") or "")):
+                            out.add(tf[1])
+                        elif t.endswith("*") and not t.startswith("const "):
+                            out.add(tf[1])   # hands out a mutable pointer into the member (begin(), element())
         if F.is_call(n) and n.get("paramT"):
             # an argument bound to a non-const reference (or pointer) parameter is written
             args = F.call_args(n)
